@@ -44,7 +44,7 @@ ASSUMPTIONS = [
 ]
 TIERS = {
     "quick": {"examples": 4000, "budget_s": 100, "deep": False},
-    "thorough": {"examples": 130000, "budget_s": 1500, "deep": True},
+    "thorough": {"examples": 100000, "budget_s": 1500, "deep": True},
 }
 
 CHUNK = 1000
